@@ -1067,6 +1067,22 @@ func (c *Ctx) posUnder(v ssa.Value, feasible map[[2]*ssa.BasicBlock]bool, depth 
 	case *ssa.Parameter:
 		return 0, map[string]int64{paramAlias(x.Name()): 1}, true
 	case *ssa.Call:
+		// a pure size helper of the module: name(args) as one term
+		if f := x.Call.StaticCallee(); f != nil && inModule(fnPkgPath(f)) && len(x.Call.Args) <= 3 && isIntType(x.Type()) {
+			var as []string
+			for _, a := range x.Call.Args {
+				if p, isP := a.(*ssa.Parameter); isP {
+					as = append(as, paramAlias(p.Name()))
+					continue
+				}
+				k, s, ok := c.posUnder(a, feasible, depth+1)
+				if !ok {
+					return 0, nil, false
+				}
+				as = append(as, posString(k, s))
+			}
+			return 0, map[string]int64{f.Name() + "(" + strings.Join(as, ",") + ")": 1}, true
+		}
 		if b, ok := x.Call.Value.(*ssa.Builtin); ok && b.Name() == "len" {
 			a := x.Call.Args[0]
 			if p, ok := a.(*ssa.Parameter); ok {
